@@ -105,11 +105,15 @@ claim('C05',
       'text .sol format as the library\'s own reader parses it - checks every line: "Options", option count and options in order, '
       'the counts block in the order constraints / duals / variables / primals, exactly nduals + nprimals value lines each '
       'carrying value k at line k ({:.16}), "objno <objno-1> <status>", then the four suffix sets in kind order. '
-      '(3) Reader accepts what the writer writes: SOLReader2::sufheadcheck accepts every suffix header the writer can produce. '
+      '(3) Suffixes: the body of the suffix loop of internal::WriteSuffixes writes "suffix <kind&mask> <n> <namelen+1> <tablen> <tablines>", the '
+      'name, the table and then the value lines; SuffixValueWriter::Visit writes "<index> <value>" (reals with {:.16}); '
+      'BasicSuffix<T>::VisitValues visits exactly the non-zero values in index order (so the announced count and the lines '
+      'agree); SuffixValueCounter::Visit counts. (4) Reader accepts what the writer writes: SOLReader2::sufheadcheck accepts every '
+      'suffix header the writer can produce. '
       'Two genuine writer/reader disagreements are recorded as known findings (fewer than 3 options; vbtol form of the options).',
       'Trusted: CBMC, extractor, the ghost output model (fputc/fwrite/print always succeed; "{}" of an integer prints its '
       'decimal digits, "{:.16}" a double with 16 significant digits). Not decided: number round trip itself (fmt formatting vs '
-      'strtod), the per-suffix block of internal::WriteSuffixes and SuffixValueWriter (iterator-based templates), binary '
+      'strtod), the iteration over the suffix set (SuffixMap iterator; every suffix goes through the same block), binary '
       'format. The reader side is proved total and memory-safe under C14. Replay: native writer -> reader round trip '
       '(replay/c05_roundtrip.cc) over option counts, vector lengths, objective numbers and suffixes of every kind.',
       'DESIGN.md 4 C05')
